@@ -67,5 +67,5 @@ proof fn vacuity_pre(i: v1::Instance, st: Map<u64, F64>) requires
             'T4: itertools::multizip = element-wise triples up to the shortest length (helper zip3)',
         ],
         assumptions=common.A1 + ['evaluated value of a constraint is characterised as in C01 (finite coefficients/values => exact real value)'],
-        not_covered=['bit-precise behaviour at the 1e-6/1e-7 thresholds (A1): covered bit-precisely only by the Kani leaves in the thorough tier if they are enabled'],
+        not_covered=['bit-precise behaviour at the 1e-6/1e-7 thresholds (A1: ideal arithmetic); the bounded stand-in runs the real f64 code but leaves the zone between the two thresholds undecided'],
     )
